@@ -55,6 +55,10 @@ type Stream struct {
 	logW     atomic.Bool
 	// shortWrite: if > 0, Write accepts at most this many octets and returns an error.
 	shortWrite int
+	// WriteGap, if > 0, is slept after every Write has delivered its octets (a transport on which a
+	// write takes a moment): what a writer puts on the wire in two calls can be separated by another
+	// writer's call.
+	WriteGap time.Duration
 	// OnSetReadDeadline, if set (before the connection is used), is called at the start of
 	// every SetReadDeadline: a scenario may block in it to pause the caller at that point.
 	OnSetReadDeadline func(t time.Time)
@@ -202,6 +206,9 @@ func (s *Stream) Write(p []byte) (int, error) {
 	h.buf = append(h.buf, p[:n]...)
 	h.mu.Unlock()
 	h.cond.Broadcast()
+	if s.WriteGap > 0 {
+		time.Sleep(s.WriteGap)
+	}
 	return n, err
 }
 
